@@ -816,7 +816,22 @@ type CPHolder struct {
 	Before string `value:"lit"`
 	D      *CPProps
 	After  int `value:"4"`
+	// an explicit tag wins over what the field's type or a second tag would say: the prefix written in the tag, not
+	// the type's Prefix(); the value tag, not the prop shorthand next to it
+	Alt      *CPProps `prefix:"c17.alt"`
+	Greeting string   `value:"hello" prop:"c17.alt.b"`
 }
+
+// CfgPP is a (pass-through, non-lazy) component post-processor that has configuration points of its own
+type CfgPP struct {
+	N int    `prefix:"c17.alt.a"`
+	S string `value:"${c17.alt.b:dflt}"`
+	Q int    `prop:"c17.alt.a:5"`
+	O *Inner `prefix:"c17.alt.none,required=false"`
+}
+
+func (*CfgPP) PostProcessBeforeInitialization(c any, n string) (any, error) { return c, nil }
+func (*CfgPP) PostProcessAfterInitialization(c any, n string) (any, error)  { return c, nil }
 
 // configuration points declared in an embedded struct whose type name is unexported (its exported fields are
 // settable all the same), directly and beneath an exported embedded wrapper
@@ -871,8 +886,11 @@ func TestStructShapes(t *testing.T) {
 		cp := &CPHolder{}
 		port := rapid.IntRange(1, 65535).Draw(t, "embport")
 		doc += fmt.Sprintf("  emb:\n    host: 0.0.0.0\n    port: %d\n", port)
+		altA := rapid.IntRange(100, 999).Draw(t, "alta")
+		doc += fmt.Sprintf("  alt:\n    a: %d\n    b: altbee\n", altA)
 		e1, e2 := &EmbHolder{}, &EmbHolder2{}
-		out := kit.RunApp(app.SetComponents(obj.Interface(), cp, e1, e2), app.SetConfigLoader(loader.NewRawLoader([]byte(doc))))
+		cpp := &CfgPP{}
+		out := kit.RunApp(app.SetComponents(obj.Interface(), cp, e1, e2, cpp), app.SetConfigLoader(loader.NewRawLoader([]byte(doc))))
 		desc := fmt.Sprintf("struct-shape %s doc=%q", typ, doc)
 		if !out.OK() {
 			t.Fatalf("C17: %s failed: %v", desc, out)
@@ -883,6 +901,17 @@ func TestStructShapes(t *testing.T) {
 		wantBase := cfgBase{Host: "0.0.0.0", Port: port, Lit: "007", Q: port}
 		if out.OK() && (e1.cfgBase != wantBase || e1.Own != 3 || e2.cfgBase != wantBase || e2.Own != 4) {
 			t.Fatalf("C17: %s: configuration points inside an embedded struct with an unexported type name hold %+v (own %d) / %+v (own %d), want %+v (3 / 4)", desc, e1.cfgBase, e1.Own, e2.cfgBase, e2.Own, wantBase)
+		}
+		if out.OK() {
+			if cp.Alt == nil || cp.Alt.A != altA || cp.Alt.B != "altbee" {
+				t.Fatalf("C17: %s: field tagged prefix:\"c17.alt\" (its type also states Prefix()=\"c17.key\") holds %+v, want the c17.alt subtree {A:%d B:altbee}", desc, cp.Alt, altA)
+			}
+			if cp.Greeting != "hello" {
+				t.Fatalf("C17: %s: field tagged value:\"hello\" (and prop:\"c17.alt.b\") holds %q, the literal is \"hello\"", desc, cp.Greeting)
+			}
+			if cpp.N != altA || cpp.S != "altbee" || cpp.Q != altA || cpp.O != nil {
+				t.Fatalf("C17: %s: a component post-processor's own configuration points hold N=%d S=%q Q=%d O=%v, configured are %d / altbee / %d / nothing", desc, cpp.N, cpp.S, cpp.Q, cpp.O, altA, altA)
+			}
 		}
 		if cp.Before != "lit" || cp.After != 4 {
 			t.Fatalf("C17: %s: the fields around the Prefix()-bound one hold %q / %d, want \"lit\" / 4", desc, cp.Before, cp.After)
